@@ -648,6 +648,8 @@ def run(rep, tier):
     c06_audit.clock_rule(rep, fp, vals)
     rep.floor("read/write removal sites", c06_audit.rw_kind_rule(rep, fp, vals), 1)
     rep.floor("refusal obligations", c06_audit.refuse_rule(rep, u, vals, opt), 4)
+    rep.floor("closes of pool-created descriptors", c06_audit.close_after_del_rule(rep, u), 4)
+    rep.floor("thread stores in the add entry points", c06_audit.add_target_rule(rep, u), 3)
     return driver.finish(
         rep, "other",
         "Static analysis of the Linux (epoll) branch of threadpool.c; the BSD/kqueue branch is not compiled here and is NOT "
